@@ -288,6 +288,7 @@ pub fn raw_scenario(case: &RawCase, which_reply: usize, cuts: &[usize], req_cut:
         servers,
         actors: vec![s.actor()],
         opts: Opts::default(),
+        meta: serde_json::Value::Null,
     }
 }
 
@@ -528,6 +529,7 @@ pub fn ref_scenario(prog: &str, cache: usize, gate: Gate) -> Scenario {
         servers,
         actors: vec![ref_program(prog).actor()],
         opts: Opts::default(),
+        meta: serde_json::Value::Null,
     }
 }
 
